@@ -34,6 +34,7 @@
 //        the callback script set by `script` applies as in every scan
 //        rules-level: both passed to yr_rules_scan_*; scanner-level: yr_scanner_set_flags / yr_scanner_set_timeout first;
 //        *blocks: the bytes as the single block of a fresh position-keeping iterator with a file_size function
+//   config maxmatchdata <n>   yr_set_configuration(YR_CONFIG_MAX_MATCH_DATA) for the rest of the case (own process)
 // Iterator semantics ("position keeping"): the iterator remembers the index of the last block it delivered
 // (-1 at piter).  first(): if ready deliver block 0.  next(): if ready deliver block last+1.  A not-ready answer
 // changes nothing but last_error.  Hence next() after a not-ready first() delivers block 0: this is what an
@@ -449,6 +450,13 @@ static void proto_cmd(HS* s, char* line)
   else if (!strcmp(c, "pmode")) P.naive = !strcmp(tok(&p), "naive");
   else if (!strcmp(c, "gscan")) gscan_cmd(s, p);
   else if (!strcmp(c, "ft")) ft_cmd(s, p);
+  else if (!strcmp(c, "config"))     // config maxmatchdata <n> : process-global, i.e. for the rest of this case's process
+  {
+    char* what = tok(&p);
+    uint32_t v = (uint32_t) strtoul(tok(&p), NULL, 10);
+    int rc = !strcmp(what, "maxmatchdata") ? yr_set_configuration(YR_CONFIG_MAX_MATCH_DATA, &v) : -1;
+    fprintf(s->out, "config %s=%u rc=%d\n", what, v, rc);
+  }
   else if (!strcmp(c, "pguard")) { char* t = tok(&p); P.guard = !strcmp(t, "slicea") ? 1 : !strcmp(t, "slicew") ? 2 : 0; }
   else if (!strcmp(c, "own")) own_cmd(s, p);
   else if (!strcmp(c, "ownpath")) ownpath_cmd(s, p);
